@@ -422,7 +422,7 @@ def check(src, rep):
         try:
             scan(explore(engine(inline_subobjects=True), fn), q, q)
         except (Unsupported, NeedFork) as ex:
-            raise Undecided(f"{q} outside the analysed subset: {ex}")
+            rep.undecide(f"R1 {q} outside the analysed subset: {ex}"); unproven += 1
     # ---- protocols
     for q in ("meter_connection.SmartMeterBaseProtocol.data_received", "meter_connection.SmartMeterMessageProtocol.message_received",
               "meter_connection.SmartMeterMessagePayloadProtocol.message_received"):
@@ -433,7 +433,7 @@ def check(src, rep):
         try:
             scan(explore(engine(), fn), q, q)
         except (Unsupported, NeedFork) as ex:
-            raise Undecided(f"{q} outside the analysed subset: {ex}")
+            rep.undecide(f"R1 {q} outside the analysed subset: {ex}"); unproven += 1
     rep.count("entry_points", n_entry)
     rep.count("exception_sites", n_sites)
     rep.extra["site_census"] = [f"{f}:{l} {w} -> {h}" for (f, l, w), h in sorted(census.items(), key=lambda kv: (kv[0][0], kv[0][1], kv[0][2]))]
